@@ -139,7 +139,7 @@ def make_prog(ops, inputs, p, store, labels):
     return prog
 
 
-def real_run(prog_def, inputs, seed, cut=None, policy=None):
+def real_run(prog_def, inputs, seed, cut=None, policy=None, loss=None):
     """Run the program in the simulator. cut = (party, nbytes) or None.
     Returns dict(outputs={pid:{k:v}}, labels={k:pc}, order={pid:[(k,dst,framebytes)]}, wire=set((src,dst,k,val)), dead, res)."""
     from lib.sim import Sim, Fifo, RandomOrder
@@ -163,6 +163,8 @@ def real_run(prog_def, inputs, seed, cut=None, policy=None):
         n0 = [len(sim.msglog[i]) for i in range(m)]
         if cut is not None:
             sim.net.cut[cut[0]] = cut[1]
+        if loss is not None:
+            sim.net.loss_mode = loss           # survivors are told of the disconnect (connection_lost) while computing
         pol = Fifo() if policy is None else RandomOrder(random.Random(policy[1]))
         res = sim.run(make_prog(ops, inputs, p, store, labels), pol, idle_limit=IDLE)
         lab = labels.get(0, {})
@@ -304,6 +306,13 @@ def _run_part(ctx, programs=None):
                     summary['cut_runs'] += 1
                     summary['mid_frame_runs'] += kind == 'mid-frame'
                     rec['cuts'][(c, k, kind)] = (nbytes, r)
+                # the same cut with the survivors NOTIFIED of the disconnect (clean close / reset) while they compute:
+                # the set of completed outputs may shrink (receives from the dead party fail), the values may not change
+                if ctx.tier == 'thorough' or (k + seed) % 2 == 0:
+                    for loss in ('none', 'exc'):
+                        rn = real_run(prog_def, inputs, seed, cut=(c, off), loss=loss)
+                        summary['notified_runs'] = summary.get('notified_runs', 0) + 1
+                        rec.setdefault('notified', []).append((c, k, off, loss, rn))
         records.append(rec)
     t1 = time.time()
     # ---- phase 2: the model, evaluated in Coq
@@ -334,6 +343,19 @@ def _run_part(ctx, programs=None):
             summary['order_is_program_order'] += po == real
             if sorted(po) != sorted(real) or len(set(real)) != len(real):
                 broke.append({'kind': 'send set of party', 'case': key0, 'party': c, 'model': po, 'impl': real})
+        for (c, k, off, loss, rn) in rec.get('notified', []):
+            key = {**key0, 'crashed': c, 'k': k, 'cut_bytes': off, 'survivors_notified': loss}
+            ctx.case(key, nontrivial=True, kind='model m=%d notified-%s' % (m, loss))
+            if 'error' in rn:
+                broke.append({'kind': 'notified cut run failed', 'case': key, 'detail': rn['error']})
+                continue
+            for i in range(m):
+                for kk, v in rn['outputs'].get(i, {}).items():
+                    if i != c:
+                        summary['outputs_compared'] += 1
+                        if (i, kk, v) not in want:
+                            ctx.violation('model-crash survivor-output-wrong m=%d t=%d notified' % (m, t),
+                                          {**key, 'party': i, 'output': kk, 'got': v, 'want': [w for w in want if w[:2] == (i, kk)]})
         for idx, c in enumerate(crashers):
             allk = res[2 + idx]
             order = rec['orders'][c]
